@@ -627,6 +627,7 @@ class C18(Check):
         out = []
         self.last_hexquote_after_bs = False
         self.last_linecont = False
+        self.last_simple_dquote = False
         for i, c in enumerate(content):
             nxt = content[i + 1] if i + 1 < len(content) else ''
             r = rng.random()
@@ -651,6 +652,8 @@ class C18(Check):
                         self.last_hexquote_after_bs = True
                 else:
                     out.append('\\' + c)          # simple escape
+                    if c == '"' and quote != '"':
+                        self.last_simple_dquote = True
             else:
                 out.append(c)
             if rng.random() < 0.03:
@@ -743,7 +746,8 @@ class C18(Check):
                 ctx.violate('a CSS string is one STRING value', w0, {'wellformed': pv.wellformed, 'length': pv.length})
                 continue
             r = pv[0].value
-            kf = 'C18-backslash-then-hex-escape' if hexq else 'C18-escaped-dquote' if self.has_escaped_dquote(r) else None
+            # regions are decided on the SOURCE spelling, never on what the implementation stored
+            kf = 'C18-backslash-then-hex-escape' if hexq else 'C18-escaped-dquote' if self.last_simple_dquote else None
             nontriv = any(c in '"\'\\\n\r\f' or ord(c) > 126 for c in want) or '\\' in src
             ctx.case(key=('str', src), nontrivial=nontriv, kind='string:%s' % ('region' if kf else 'plain' if not nontriv else 'escapes'),
                      sample={'string': src, 'value': r, 'written': pv.cssText})
@@ -866,6 +870,7 @@ class C18(Check):
         """-> text; sets self.last_hexquote_after_bs and self.last_spell (per character: raw / hex / simple)"""
         out = []
         self.last_hexquote_after_bs = False
+        self.last_simple_dquote = False
         self.last_spell = []
         for i, c in enumerate(content):
             nxt = content[i + 1] if i + 1 < len(content) else ''
@@ -883,6 +888,8 @@ class C18(Check):
                 else:
                     out.append('\\' + c)
                     self.last_spell.append('simple')
+                    if c == '"':
+                        self.last_simple_dquote = True
             else:
                 out.append(c)
                 self.last_spell.append('raw')
@@ -911,6 +918,7 @@ class C18(Check):
                 inner = self.render_string(rng, content, style)
                 linecont = self.last_linecont
             hexq = self.last_hexquote_after_bs
+            sdq = self.last_simple_dquote
             ctrl = any((ord(c) < 0x20 and not c.isspace()) or c == '\x7f' for c in want)
             name = rng.choice(['url', 'url', 'URL', 'Url'])
             src = name + '(' + pad1 + inner + pad2 + ')'
@@ -923,10 +931,9 @@ class C18(Check):
             r = pv[0].uri
             kf_read = ('C18-backslash-then-hex-escape' if hexq else 'C18-url-line-continuation' if linecont
                        else 'C18-url-edge-escape' if edge_ws else None)
-            nbs = len(r) - len(r.rstrip('\\'))
-            needs_quotes = any(c in '()\'";,' or c.isspace() for c in r)
-            kf = kf_read or ('C18-escaped-dquote' if self.has_escaped_dquote(r)
-                             else 'C18-url-trailing-backslash' if (needs_quotes and nbs >= 2 and nbs % 2 == 0)
+            needs_quotes = any(c in '()\'";,' or c.isspace() for c in want)
+            kf = kf_read or ('C18-escaped-dquote' if sdq
+                             else 'C18-url-trailing-backslash' if (style == 'u' and needs_quotes and want.endswith('\\'))
                              else 'C18-url-control-char' if ctrl else None)
             ctx.case(key=('url', src), nontrivial=(src != 'url(' + want + ')'),
                      kind='url:%s%s' % ('unquoted' if style == 'u' else 'quoted', ':region' if kf else ''),
